@@ -147,6 +147,19 @@ def gen_case(rng, tier="quick", dup_ok=True, cross_p=0.02):
     ntx = rng.choice([0, 1, 1, 2, 2, 2, 3, 3])
     begun = 0
     malformed = rng.random() < 0.12
+    def faulted_open():
+        """OpenTable whose populate scan dies part-way (storage read error), then index-leaf queries"""
+        j = rng.randrange(0, len(sim.rows) + 2)
+        if sim.rows and rng.random() < 0.7:
+            j = rng.randrange(0, len(sim.rows))
+        sim.txs.clear()
+        ops.append({"op": "reopen_fault", "lim": j})
+        for _ in range(rng.choice([1, 2, 2])):
+            ops.append({"op": "query", "t": 0, "f": gen_filter(rng, sim.view(0), stats, dup_ok, need_idx=True)})
+        if rng.random() < 0.4:
+            ops.append({"op": "query", "t": 0, "f": gen_leaf_idx(rng, False)})
+    if seed and rng.random() < 0.15:
+        faulted_open()          # the "table opened over pre-existing data" phase with a mid-scan fault
     guard = 0
     while len(ops) < n and guard < 400:
         guard += 1
@@ -266,8 +279,11 @@ def gen_case(rng, tier="quick", dup_ok=True, cross_p=0.02):
             sim.txs.pop(t)
             ops.append({"op": "abort", "t": t})
         elif x < 0.935:
-            sim.txs.clear()
-            ops.append({"op": "reopen"})
+            if rng.random() < 0.3:
+                faulted_open()
+            else:
+                sim.txs.clear()
+                ops.append({"op": "reopen"})
         elif x < 0.985:
             chs = []
             for _ in range(rng.choice([1, 1, 2, 3])):
@@ -377,6 +393,8 @@ def c_op(o):
         return "CommitFail %s" % t
     if k == "reopen":
         return "Reopen"
+    if k == "reopen_fault":
+        return "ReopenFault %s" % cnatl(o["lim"])
     if k == "repl":
         ws = []
         for ch in o["chs"]:
@@ -408,9 +426,11 @@ def c_zn(l):
 
 
 def c_probe(p):
-    return "(PR %s %s %s %s %s %s %s %s)" % (
+    inv = p.get("inv") or [False, False]
+    return "(PR %s %s %s %s %s %s %s %s %s %s)" % (
         c_rows(p["rows"]), c_vk(p["lf"]), c_nz(p["lr"]), cnatl(p["ld"]),
-        c_zn(p["se"]), c_nz(p["sr"]), cnatl(p["sd"]), clist([c_txp(x) for x in (p.get("txs") or [])]))
+        c_zn(p["se"]), c_nz(p["sr"]), cnatl(p["sd"]), clist([c_txp(x) for x in (p.get("txs") or [])]),
+        cbool(inv[0]), cbool(inv[1]))
 
 
 def c_pdelta(prev, p):
@@ -427,9 +447,10 @@ def c_pdelta(prev, p):
             txs.append("(%s, None)" % cnatl(x["t"]))
         else:
             txs.append("(%s, Some %s)" % (cnatl(x["t"]), c_txp(x)))
-    return "(Some (PD %s %s %s %s %s %s %s %s))" % (
+    inv = p.get("inv") or [False, False]
+    return "(Some (PD %s %s %s %s %s %s %s %s %s %s))" % (
         opt("rows", c_rows), opt("lf", c_vk), opt("lr", c_nz), cnatl(p["ld"]),
-        opt("se", c_zn), opt("sr", c_nz), cnatl(p["sd"]), clist(txs))
+        opt("se", c_zn), opt("sr", c_nz), cnatl(p["sd"]), clist(txs), cbool(inv[0]), cbool(inv[1]))
 
 
 def c_rq(q):
@@ -478,7 +499,7 @@ def _writes(case):
             w[t] |= set(o["ks"]) if not o.get("f") else set(KEYS)
         elif k in ("commit", "abort", "commit_fail"):
             w.pop(t, None)
-        elif k == "reopen":
+        elif k in ("reopen", "reopen_fault"):
             w.clear()
         elif k == "commit2":
             a, b = w.pop(t, None), w.pop(o["u"], None)
@@ -598,7 +619,7 @@ def consts(repo):
 
 
 RULE = ("histories of 6-26 ops over begin/create/update(key|filter)/delete(keys|filter)/query/ordered query/commit/"
-        "nested commit/commit with injected kv failure/abort/reopen/replicated write/Get on a 4-column entry (key, lookup-indexed a in 0..3, "
+        "nested commit/commit with injected kv failure/abort/reopen/reopen with a read error j rows into the populate scan/replicated write/Get on a 4-column entry (key, lookup-indexed a in 0..3, "
         "sorted-indexed b in 0..5, payload c) over 9 keys, up to 3 interleaved transactions plus direct DB use, both "
         "observer wirings; filter trees of depth <= 3 over keys/pred/idx/and/or/not re-drawn until non-constant on "
         "the reader's current view (share reported). Non-trivial = a writing transaction, an index-leaf query "
